@@ -61,6 +61,12 @@ fn shape_for(i: u64, rng: &mut Rng) -> Shape {
         sh.asserts.push(ASpec { col: c + 1, kind: AKind::Sequence { first: 1, stride: n / 4 } });
         sh.exemptions = sh.exemptions.min(sh.max_exemptions());
     }
+    // more auxiliary than main transition constraints
+    if i % 6 == 3 {
+        let w = sh.width();
+        sh.aux = Some(AuxShape { cols: w + 1 + (i as usize / 6) % 2, rands: 1 + (i as usize / 12) % 2, lagrange: false });
+        sh.exemptions = sh.exemptions.min(sh.max_exemptions()).max(1);
+    }
     // trace metadata at the element-chunk boundaries of the three fields
     if i % 3 == 1 {
         let lens = [1usize, 3, 7, 8, 9, 15, 16, 17, 22, 24, 31, 32, 33, 46, 50, 64, 100];
@@ -170,6 +176,49 @@ fn case(i: u64, rng: &mut Rng, st: &mut State, full: bool) {
             (_, Err(pi)) => st.violation(format!("verify-panic:{}", pi.sig), describe(c, s, "verifier panic", pi.msg)),
         }
     }
+    // (1b) a prover that corrupts one cell of the auxiliary segment it builds (the main trace and the
+    // statement are the honest ones): the cell violates the aux transition constraint of its column
+    // on the enforced steps next to it, or the aux assertion at step 0
+    if let Some(a) = &shape.aux {
+        let e = shape.exemptions;
+        let mut cells: Vec<(usize, usize)> = Vec::new();
+        for c in 0..a.cols {
+            if n * a.cols <= 96 {
+                cells.extend((0..n).map(|r| (c, r)));
+            } else {
+                for r in [0, 1, 2, n / 2, n - e - 1, n - e, (n - e + 1).min(n - 1), n - 1] {
+                    cells.push((c, r));
+                }
+                cells.push((c, rng.usize(n)));
+            }
+        }
+        cells.sort();
+        cells.dedup();
+        for (c, r) in cells {
+            set_aux_corruption(Some((c, r)));
+            let proved = stark::prove(&honest, false);
+            set_aux_corruption(None);
+            // still valid iff both transitions touching the cell are exempt (and it is not step 0)
+            let invalid = r <= n - e;
+            st.evals += 1;
+            let what = format!("aux column {c} (of {}, main constraints {w}) row {r}", a.cols);
+            match proved {
+                Proved::Ok(p) => match stark::verify_proof(fd, hs, &shape, &values, p, &acc, false) {
+                    Ok(Ok(())) if invalid => st.violation(format!("invalid-aux-segment-accepted:{}", if c >= w { "aux-constraint-index>=number-of-main-constraints" } else { "aux-constraint" }), describe(c, r, "auxiliary segment corrupted by the prover", what)),
+                    Ok(Ok(())) => st.count("aux.still_valid_accepted"),
+                    Ok(Err(e)) if !invalid => st.violation("still-valid-aux-segment-rejected", describe(c, r, &e, what)),
+                    Ok(Err(_)) => {
+                        st.count("aux.rejected");
+                        if c >= w {
+                            st.count("aux.rejected_constraint_index_ge_main_constraints");
+                        }
+                    },
+                    Err(pi) => st.violation(format!("verify-panic:{}", pi.sig), describe(c, r, "verifier panic", pi.msg)),
+                },
+                _ => st.count("aux.no_proof_produced"),
+            }
+        }
+    }
     // (2) the honest proof against perturbed statements
     let mut checked = 0;
     for (ai, v) in values.iter().enumerate() {
@@ -268,7 +317,7 @@ fn main() {
     let full = !run.quick();
     let n = run.size(240, 12_000);
     run.par("shapes", n, |i, rng, st| case(i, rng, st, full));
-    let mut require = vec![("shapes.every_cell_corrupted".to_string(), 10), ("still_valid.accepted".to_string(), 20), ("perturbed_statements".to_string(), 100)];
+    let mut require = vec![("shapes.every_cell_corrupted".to_string(), 10), ("still_valid.accepted".to_string(), 20), ("perturbed_statements".to_string(), 100), ("aux.rejected".to_string(), 50), ("aux.rejected_constraint_index_ge_main_constraints".to_string(), 10)];
     for k in ["first-step", "last-enforced-row", "row-before-exemption-boundary", "last-step", "asserted-single", "asserted-periodic", "asserted-sequence", "interior", "perturbed_assertion_value", "perturbed_exemptions", "perturbed_rule-constant", "relabelled_trace-metadata-byte", "relabelled_proof-option"] {
         require.push((format!("rejected.{k}"), 5));
     }
@@ -276,7 +325,7 @@ fn main() {
         require.push((format!("shapes.{f:?}"), 5));
     }
     run.finish(Finish {
-        rule: "per shape of the C01 family (n = 8..64, 1..7 columns, all 12 field x hasher combinations, three extension degrees): every (column, step) cell (all cells while n*width <= 160 in quick, always in thorough; boundary + asserted + sampled cells otherwise) is corrupted by +1 or a random value and proven with the unchanged public inputs; the reference validity predicate decides the expected verdict (invalid -> rejected, still valid -> accepted); rejections are counted per step class (first step, row before / at / after the exemption boundary, last step, asserted cells per assertion kind, interior); then the honest proof is verified against perturbed assertion values and perturbed computation descriptions (exemptions, rule constant, assertion step, periodic value), and the proof itself is relabelled (every byte of its trace metadata - lengths at the element-chunk boundaries -, each proof option) and must then be rejected. distinct = distinct (shape instance, corrupted cell, delta)".into(),
+        rule: "per shape of the C01 family (n = 8..64, 1..7 columns, all 12 field x hasher combinations, three extension degrees): every (column, step) cell (all cells while n*width <= 160 in quick, always in thorough; boundary + asserted + sampled cells otherwise) is corrupted by +1 or a random value and proven with the unchanged public inputs; the reference validity predicate decides the expected verdict (invalid -> rejected, still valid -> accepted); rejections are counted per step class (first step, row before / at / after the exemption boundary, last step, asserted cells per assertion kind, interior); a prover that corrupts one cell of the auxiliary segment (all cells of small segments; shapes with more auxiliary than main constraints forced every sixth case) must be rejected exactly when the cell touches an enforced step; then the honest proof is verified against perturbed assertion values and perturbed computation descriptions (exemptions, rule constant, assertion step, periodic value), and the proof itself is relabelled (every byte of its trace metadata - lengths at the element-chunk boundaries -, each proof option) and must then be rejected. distinct = distinct (shape instance, corrupted cell, delta)".into(),
         assumptions: vec![
             "a prover panic/error on an invalid trace counts as 'no proof' (vacuous)".into(),
             "rejection happens at the out-of-domain check with probability >= 1 - deg/|F| >= 1 - 2^-45: treated as deterministic".into(),
